@@ -43,7 +43,8 @@ var $ifaceKeyFor = x => {
         return 'nil';
     }
     var c = x.constructor;
-    return c.string + '$' + c.keyFor(x.$val);
+    /* The type id, unlike the type string, is unique for every distinct type. */
+    return c.id + '$' + c.keyFor(x.$val);
 };
 
 var $identity = x => { return x; };
